@@ -60,6 +60,14 @@ pub fn rule_docs(ls: &LangSpec, variant: usize, with_fix: bool) -> Vec<Value> {
     json!({"id": "util-rule", "language": ls.lang, "rule": {"all": [{"pattern": "uti($U)"}, {"has": {"matches": "is-answer", "stopBy": "end"}}]},
            "utils": {"is-answer": {"kind": ls.number_kind, "regex": "^42$"}}, "message": "uti with the answer", "severity": "info"}),
   ];
+  // a node whose text ENDS with a line break (a preprocessor line of C, a doc comment of Rust): where the finding ends is
+  // the start of the next line, in every front end
+  if ls.lang == "C" {
+    v.push(json!({"id": "c-include", "language": "C", "rule": {"kind": "preproc_include"}, "message": "an include", "severity": "info"}));
+  }
+  if ls.lang == "Rust" {
+    v.push(json!({"id": "rs-doc", "language": "Rust", "rule": {"kind": "line_comment", "regex": "^///"}, "message": "a doc comment", "severity": "info"}));
+  }
   if variant % 2 == 1 {
     v[1]["note"] = json!("a note for bar");
   }
@@ -123,7 +131,8 @@ pub fn make_text(ls: &LangSpec, rng: &mut Rng, astral: bool) -> String {
   }
   // some texts start with blank lines: the tree's root node then starts after them, the document does not
   let lead = if rng.chance(1, 4) { "\n\n" } else { "" };
-  let text = format!("{lead}{}{}{}", ls.pre, body, ls.post);
+  let head = if ls.lang == "C" { "#include <stdio.h>\n" } else if ls.lang == "Rust" { "/// documented\n" } else { "" };
+  let text = format!("{lead}{head}{}{}{}", ls.pre, body, ls.post);
   if nl == "\r\n" { text.replace('\n', "\r\n") } else { text }
 }
 
